@@ -33,7 +33,12 @@ def encode(uni: str) -> str:
 
 
 def decode(ascii: str) -> str:
-    return codecs.decode(ascii, encoding="punycode")  # type: ignore
+    decoded: str = codecs.decode(ascii, encoding="punycode")  # type: ignore
+    # The codec also accepts labels that decode to surrogate code points.
+    # Those are not Unicode scalar values and cannot be encoded again:
+    # raise (UnicodeEncodeError) like for any other undecodable label.
+    decoded.encode("utf-8")
+    return decoded
 
 
 def map_domain(string: str, fn: Callable[[str], str]) -> str:
